@@ -81,3 +81,24 @@ PROPS["C15"] = dict(
                                             "start_before_window_full": 10, "audio_streams": 5, "exhaustive_strings": 10000}),
     assumptions=[A_SAN, A_GEN, "hook ssv_vad_script only replaces the classifier's return value"],
 )
+
+PROPS["C06"] = dict(
+    title="Acoustic features do not depend on how the audio is chunked or encoded",
+    level="exploration",
+    technique="differential runtime monitor: bit-exact comparison of chunked/limited/float runs against a one-call reference, under ASan/UBSan",
+    level_text="exploration: for random front-end configurations and signals, 6-8 variant runs per case (random partitions from single "
+               "samples to > 33000-sample chunks, per-call output limits 1..8 or ample, int16 or float32 entry point, all through the "
+               "documented `while (nsamps) fe_process(...)`/fe_end loop) are compared bit-for-bit with a single-call reference; the "
+               "frame count is compared with the closed form in the total number of samples and consumption is accounted per call.",
+    level_note="dither is excluded (process-global RNG: two runs differ by design); float32 input is exactly int16/32768; "
+               "nothing is claimed about configurations fe_init rejects",
+    rule="one case = one (front-end configuration, signal) pair with its variant runs; non-trivial = the reference produced >= 1 frame; "
+         "distinct = hash of (signal length, variant descriptions).",
+    stages=[
+        dict(harness="h_fe", flavor="asan", quick=220, thorough=2500, leaks=True),
+        dict(harness="h_fe", flavor="fast", quick=500, thorough=12000, name="h_fe_fast"),
+    ],
+    floor=dict(min_evaluations=100, counters={"variant_runs": 500, "variants_float32": 50, "variants_tiny_chunks": 50,
+                                             "variants_huge_chunks": 20, "calls_output_limited": 100}),
+    assumptions=[A_SAN, A_GEN],
+)
